@@ -270,3 +270,48 @@ def c19(tier, seed):
     c.required_counters = ["shapes", "timeouts", "signals", "broadcasts", "popwait_with_unit", "popwait_empty",
                            "blocking_pops_on_empty_pool_returned", "deadline_in_past"]
     return c
+
+
+@prop("C20")
+def c20(tier, seed):
+    c = Check("C20", tier, seed)
+    q = tier == "quick"
+    c.rule = ("cfgmap case = one sched/pool config object driven by a random sequence of create-with-varargs/set/delete/get/"
+              "read ops (keys: negatives, multiples of the table size, INT_MIN/INT_MAX, reserved -1..-4; int/double/pointer "
+              "values) compared op-by-op with a reference map; atoi case = one string (all strings of length <= L over "
+              "{0,1,9,+,-,space,tab,a} plus generated boundary strings around every type limit, 1-400 digits, signs, junk) "
+              "compared with a reference deciding on decimal digit strings; env case = one ABT_*/ABT_ENV_* variable set to a "
+              "generated string, effective value compared with the documented default/min/max/rounding (+ ABT_init and a "
+              "smoke workload when all values are sane); affinity case = one string (all strings of length <= L over "
+              "{0,1,9,-,+,space,{,},:,comma} plus grammar-generated and mutated ones) compared with a recursive-descent "
+              "reference: acceptance and expanded id lists. distinct_nontrivial is counted by the harness (enumerated "
+              "strings are all distinct; generated ones are counted at one half to allow for repeats)")
+    c.assumptions = ["parsers and ABTD_env_init are driven white-box through the statically linked library (affinity is not "
+                     "compiled into ABT_init in this build)",
+                     "legal affinity strings whose expansion exceeds 200000 ids or whose <num> reaches the implementation "
+                     "limit 2^20 are generated rarely and not judged"]
+    s = seeds(seed, 8)
+    L = 5 if q else 6
+    c.add(Run("h_conf", "mon", ["--seed", s[0], "--mode", "cfgmap", "--objects", 200 if q else 4000, "--ops", 250 if q else 500],
+              weight=1, tag="cfgmap"))
+    c.add(Run("h_conf", "asan", ["--seed", s[1], "--mode", "cfgmap", "--objects", 100 if q else 2000, "--ops", 250], weight=1,
+              tag="cfgmap-asan"))
+    c.add(Run("h_conf", "mon", ["--seed", s[2], "--mode", "atoi", "--exhaustive-len", 5 if q else 7,
+                                "--generated", 400000 if q else 20000000], weight=1, tag="atoi", timeout=900))
+    c.add(Run("h_conf", "asan", ["--seed", s[3], "--mode", "atoi", "--exhaustive-len", 4 if q else 6,
+                                 "--generated", 100000 if q else 3000000], weight=1, tag="atoi-asan", timeout=900))
+    c.add(Run("h_conf", "mon", ["--seed", s[4], "--mode", "env", "--cases", 400 if q else 6000, "--watchdog", 120 if q else 900],
+              weight=2, tag="env"))
+    c.add(Run("h_conf", "asan", ["--seed", s[5], "--mode", "env", "--cases", 150 if q else 2000, "--watchdog", 120 if q else 900],
+              weight=2, tag="env-asan"))
+    c.add(Run("h_conf", "mon", ["--seed", s[6], "--mode", "affinity", "--exhaustive-len", L,
+                                "--generated", 500000 if q else 30000000, "--watchdog", 120 if q else 1800], weight=1,
+              tag="affinity", timeout=2000))
+    c.add(Run("h_conf", "asan", ["--seed", s[7], "--mode", "affinity", "--exhaustive-len", 4 if q else 5,
+                                 "--generated", 150000 if q else 5000000, "--watchdog", 120 if q else 1800], weight=1,
+              tag="affinity-asan", timeout=2000))
+    c.nontrivial = lambda r: True
+    c.required_counters = ["config_ops", "atoi_exhaustive_strings", "atoi_generated_strings", "atoi_saturated",
+                           "atoi_non_numbers", "env_values_in_range", "env_values_clamped", "env_unparsable_default",
+                           "env_smoke_workloads", "affinity_valid", "affinity_invalid", "affinity_ids_compared"]
+    return c
